@@ -268,6 +268,14 @@ class QSim:
         self.inject = sorted(([i["h"], i["step"]] for i in run.get("inject", ())), key=lambda x: x[0])
         gc_was = gc.isenabled()
         gc.disable()
+        from .loop import Watchdog
+        if Watchdog.tripped:
+            if gc_was:
+                gc.enable()
+            self.torn = True
+            return self
+        wd = Watchdog(self)
+        wd.start()
         try:
             with running(self.loop):
                 self.q = Queue(maxsize=run["config"].get("maxsize", 0))
@@ -306,6 +314,8 @@ class QSim:
                 self.exec_step({"op": "join"})
                 self.run_to_idle()
                 self.check_idle()
+                if getattr(self, "stalled", False):
+                    self.violate("loop_stalled", "the event loop was kept busy inside ONE handle for seconds of CPU time (interrupted by the watchdog)")
                 if self.unfinished() != 0:
                     self.violate("harness_drain", f"harness could not drain: {self.unfinished()} unfinished")
                 self.torn = True
@@ -315,6 +325,7 @@ class QSim:
                 self.stats["handles"] = self.loop.handles_run
                 self.loop.finish()
         finally:
+            wd.stop()
             if gc_was:
                 gc.enable()
         return self
